@@ -633,6 +633,125 @@ Proof.
   exact (sim_dev d pd mu rho MR rs_top rs_desc rs_ports rs_sigs rs_inst rs_single rs_inj rs_loc rs_val (wfs_step_total d Hwfs) x dev Hv Hd).
 Qed.
 End RbSim.
+
+(* ---- the package is well-formed (C06) ---- *)
+Lemma pm_ports_read m pm : export_module xi d m = Ok pm -> NoDup (mod_names m) ->
+  traverse (fun pd : name * Z => w <- ofopt EMissing (assoc (fst pd) (pm_sigs pm)) ;; Ok (fst pd, w)) (pm_ports pm) = Ok (m_ports m).
+Proof.
+  intros He Hnd. assert (NoDup (map fst (m_ports m))) as Hndp by (unfold mod_names in Hnd; apply (NoDup_app_l _ _ Hnd)).
+  unfold export_module in He. destruct (check _ _); cbn [bind] in He; [|discriminate]. destruct (traverse _ _); cbn [bind] in He; [|discriminate].
+  inversion He; subst pm. cbn [pm_ports pm_sigs]. fold (psigs m).
+  assert (forall pw, In pw (m_ports m) -> assoc (fst pw) (psigs m) = Some (snd pw)) as Hw.
+  { intros [n w] Hin. cbn [fst snd]. apply sig_width_psigs; [exact Hnd|]. unfold sig_width. rewrite (assoc_nodup_In n w _ Hndp Hin). reflexivity. }
+  clear - Hw. induction (m_ports m) as [|[n w] l IH]; cbn [map traverse]; [reflexivity|]. cbn [fst].
+  pose proof (Hw (n, w) (or_introl eq_refl)) as Q. cbn [fst snd] in Q. rewrite Q. cbn [ofopt bind snd]. rewrite IH; [reflexivity|].
+  intros pw Hpw. apply Hw. right. exact Hpw.
+Qed.
+
+Lemma wf_pmods_intro prims pk : forall ms earlier,
+  (forall a pm, nth_error ms a = Some pm -> wf_pmodule prims pk (earlier ++ firstn a ms) pm = Ok tt) ->
+  wf_pmods prims pk earlier ms = Ok tt.
+Proof.
+  induction ms as [|m0 ms IH]; intros earlier H; cbn [wf_pmods]; [reflexivity|].
+  pose proof (H 0%nat m0 eq_refl) as H0. cbn [firstn] in H0. rewrite app_nil_r in H0. rewrite H0. cbn [bind]. apply IH.
+  intros a pm Ha. specialize (H (S a) pm Ha). cbn [firstn] in H. rewrite <- app_assoc. exact H.
+Qed.
+
+Lemma nth_error_firstn {A} (l : list A) a b : (b < a)%nat -> nth_error (firstn a l) b = nth_error l b.
+Proof.
+  revert a b. induction l as [|x l IH]; intros a b H; [destruct a, b; reflexivity|].
+  destruct a as [|a]; [lia|]. destruct b as [|b]; [reflexivity|]. cbn [firstn nth_error]. apply IH. lia.
+Qed.
+
+Lemma NoDup_firstn {A} (l : list A) a : NoDup l -> NoDup (firstn a l).
+Proof.
+  revert a. induction l as [|x l IH]; intros a H; [destruct a; constructor|]. destruct a as [|a]; [constructor|]. cbn [firstn]. inversion H; subst.
+  constructor; [|apply IH; assumption]. intros Hin. apply H2. clear - Hin. revert a Hin. induction l as [|y l IHl]; intros a Hin; [destruct a; destruct Hin|].
+  destruct a as [|a]; [destruct Hin|]. cbn [firstn] in Hin. destruct Hin as [->|Hin]; [left; reflexivity|right; eapply IHl; exact Hin].
+Qed.
+
+Lemma firstn_map {A B} (f : A -> B) l a : firstn a (map f l) = map f (firstn a l).
+Proof. revert a. induction l as [|x l IH]; intros [|a]; cbn [firstn map]; [reflexivity|reflexivity|reflexivity|]. rewrite IH. reflexivity. Qed.
+
+Lemma In_firstn_nth {A} (l : list A) a x : In x (firstn a l) -> exists b, (b < a)%nat /\ nth_error l b = Some x.
+Proof.
+  revert a. induction l as [|y l IH]; intros a H; [destruct a; destruct H|]. destruct a as [|a]; [destruct H|]. cbn [firstn] in H.
+  destruct H as [->|H]; [exists 0%nat; split; [lia|reflexivity]|]. destruct (IH a H) as [b [Hb Hn]]. exists (S b). split; [lia|exact Hn].
+Qed.
+
+Theorem export_pkg_wf : wf_pkg prims_ext p = Ok tt.
+Proof.
+  unfold wf_pkg. cbn [pk_exts pk_mods p]. rewrite (vi_exts_nodup _ _ _ Hinv). cbn [check bind].
+  assert (forallb (fun x : pext => nodup_names (map (fun pwd : name * Z * Z => fst (fst pwd)) (px_ports x)) &&
+                                   forallb (fun pwd : name * Z * Z => 1 <=? snd (fst pwd)) (px_ports x)) (snd st) = true) as ->.
+  { apply forallb_forall. intros e He. destruct (vi_exts_from _ _ _ Hinv e He) as [k [m [x [dev [ports [v [Hm [Hx [Ho [Hv Hev]]]]]]]]]].
+    destruct (xinfo_dev xi d k m x dev ports Hxi Hm Hx Ho) as [v' [e' [Hv' [_ [Hw [Hnd [Hdecl [Hports _]]]]]]]]. rewrite Hv in Hv'. inversion Hv'; subst v'.
+    unfold dev_decl in Hdecl. rewrite Hev in Hdecl. inversion Hdecl; subst e'. unfold ext_ports in Hports.
+    apply andb_true_intro. split.
+    - apply nodup_names_NoDup. rewrite <- Hports, map_map in Hnd. exact Hnd.
+    - rewrite <- Hports, forallb_map' in Hw. exact Hw. }
+  cbn [check bind]. apply wf_pmods_intro. cbn [app]. intros a pm Ha.
+  destruct (Forall2_nth_rev _ _ _ Hpms a pm Ha) as [k [Hk [m [Hm He]]]].
+  destruct (ex_module xi d Hwfs Hna Hres Hxi k m Hm) as [pm' [Hpm' [Hn [Hsigs [Hports Fi]]]]]. rewrite He in Hpm'. inversion Hpm'; subst pm'.
+  pose proof (ex_module_ok d Hwfs k m Hm) as Hok. destruct Hok as [Hne [Hnd [Hw Hi]]].
+  unfold wf_pmodule. rewrite Hn.
+  assert (negb (String.eqb (m_name m) "") = true) as -> by (apply negb_true_iff; apply not_true_is_false; intros E; apply String.eqb_eq in E; contradiction).
+  cbn [check bind].
+  assert (negb (existsb (fun m' : pmodule => String.eqb (pm_name m') (m_name m)) (firstn a pms)) = true) as ->.
+  { apply negb_true_iff. apply not_true_is_false. intros E. apply existsb_exists in E. destruct E as [pm2 [Hin E]]. apply String.eqb_eq in E.
+    destruct (In_firstn_nth _ _ _ Hin) as [b [Hb Hnb]]. pose proof rb_names_nodup as Hnn. rewrite NoDup_nth_error in Hnn.
+    assert (b = a); [|lia]. apply Hnn; [rewrite map_length; apply nth_error_Some; congruence|]. rewrite !nth_error_map, Hnb, Ha. cbn. congruence. }
+  cbn [check bind]. rewrite Hsigs.
+  assert (NoDup (map fst (psigs m))) as Hnds.
+  { unfold psigs. rewrite map_app. unfold mod_names in Hnd. rewrite app_assoc in Hnd. apply NoDup_app_l in Hnd.
+    apply NoDup_app_intro; [apply (NoDup_app_r _ _ Hnd)|apply (NoDup_app_l _ _ Hnd)|]. intros x H1 H2. apply (NoDup_app_disj _ _ x Hnd H2 H1). }
+  rewrite (proj2 (nodup_names_NoDup _) Hnds). cbn [check bind]. rewrite Hports.
+  assert (NoDup (map fst (m_ports m))) as Hndp by (unfold mod_names in Hnd; apply (NoDup_app_l _ _ Hnd)).
+  rewrite (proj2 (nodup_names_NoDup _) Hndp). cbn [check bind].
+  assert (map pi_name (pm_insts pm) = map i_name (m_insts m)) as ->.
+  { symmetry. eapply Forall2_map_eq; [exact Fi|]. intros x pi [_ [H _]]. symmetry. exact H. }
+  assert (NoDup (map i_name (m_insts m))) as Hndi by (unfold mod_names in Hnd; apply NoDup_app_r in Hnd; apply NoDup_app_r in Hnd; exact Hnd).
+  rewrite (proj2 (nodup_names_NoDup _) Hndi). cbn [check bind].
+  assert (forallb (fun sw : name * Z => 1 <=? snd sw) (psigs m) = true) as ->.
+  { unfold psigs. rewrite forallb_app in *. apply andb_prop in Hw. destruct Hw as [-> ->]. reflexivity. }
+  cbn [check bind].
+  assert (forallb (fun pd : name * Z => match assoc (fst pd) (psigs m) with Some _ => true | None => false end) (pm_ports pm) = true) as ->.
+  { apply forallb_forall. intros pd Hpd. apply (in_map fst) in Hpd. rewrite Hports in Hpd. apply in_map_iff in Hpd. destruct Hpd as [[n w] [E Hin]]. cbn [fst] in E. rewrite <- E.
+    rewrite (sig_width_psigs m n w Hnd); [reflexivity|]. unfold sig_width. rewrite (assoc_nodup_In n w _ Hndp Hin). reflexivity. }
+  cbn [check bind]. apply all_ok_intro. intros pi Hpi. destruct (Forall2_In_r _ _ _ pi Fi Hpi) as [x [Hx [Hex [Hname Fc]]]].
+  rewrite Forall_forall in Hi. destruct (Hi x Hx) as [Hlt [ports [Hp [Hcnd [Hc Hall]]]]].
+  destruct (ex_inst xi d Hwfs Hna Hres Hxi k m x Hm Hx) as [pi' [Hpi' [_ [_ Href]]]]. rewrite Hex in Hpi'. inversion Hpi'; subst pi'.
+  unfold wf_pinst.
+  assert (ref_ports prims_ext p (firstn a pms) (pi_ref pi) = Ok ports) as ->.
+  { unfold ref_ports. destruct (i_of x) as [k'|dev dports] eqn:Eo.
+    - destruct Href as [mk [Hmk [-> _]]].
+      destruct (vi_closed _ _ _ Hinv a k Hk k') as [b [Hb Hnb]]; [exists m, x; auto|].
+      destruct (rb_pm_at b k' Hnb) as [mk2 [pmk [Hmk2 [Hpmk Hek]]]]. rewrite Hmk in Hmk2. inversion Hmk2; subst mk2.
+      destruct (ex_module xi d Hwfs Hna Hres Hxi k' mk Hmk) as [pmk' [Hpmk' [Hnk _]]]. rewrite Hek in Hpmk'. inversion Hpmk'; subst pmk'.
+      assert (NoDup (map pm_name (firstn a pms))) as Hndf by (rewrite <- firstn_map; apply NoDup_firstn; exact rb_names_nodup).
+      rewrite (find_pmod_spec (firstn a pms) (m_name mk) 0 b pmk Hndf); [|rewrite nth_error_firstn by exact Hb; exact Hpmk|exact Hnk].
+      cbn [ofopt bind Nat.add]. rewrite nth_error_firstn by exact Hb. rewrite Hpmk. cbn [ofopt bind].
+      unfold target_ports in Hp. rewrite Hmk in Hp. cbn [bind] in Hp. inversion Hp; subst ports.
+      apply pm_ports_read; [exact Hek|]. apply (ex_module_ok d Hwfs k' mk Hmk).
+    - destruct Href as [v [Hv [-> _]]]. destruct (rb_ext_lookup k m x dev dports v (nth_error_In _ _ Hk) Hm Hx Eo Hv) as [e [Hel [Hports' _]]].
+      rewrite Hel. cbn [ofopt bind]. cbn [target_ports] in Hp. inversion Hp; subst ports. unfold ext_ports in Hports'. rewrite Hports'. reflexivity. }
+  cbn [bind].
+  assert (map fst (pi_conns pi) = map fst (i_conns x)) as ->.
+  { symmetry. eapply Forall2_map_eq; [exact Fc|]. intros c pc [H _]. symmetry. exact H. }
+  rewrite (proj2 (nodup_names_NoDup _) Hcnd). cbn [check bind].
+  assert (single x = true) as Hs.
+  { pose proof (Hna k m (proj1 (nth_mod_nth _ _ _) Hm)) as H. rewrite forallb_forall in H. apply H. exact Hx. }
+  rewrite (all_ok_intro (wf_pconn pm ports) (pi_conns pi)).
+  2:{ intros pc Hpc. destruct (Forall2_In_r _ _ _ pc Fc Hpc) as [c [Hcin [Hfst [bits [Hb Hr]]]]].
+      rewrite Forall_forall in Hc. destruct (Hc c Hcin) as [w [cw [Hpw [_ [_ [Hcw Hcase]]]]]].
+      unfold wf_pconn. rewrite Hfst, Hpw. cbn [ofopt bind]. rewrite Hsigs, Hr. cbn [bind].
+      pose proof (xwidth_xbits (snd c)) as W. rewrite Hb in W. rewrite Hcw in W. inversion W as [Hz].
+      unfold check. unfold zlen in *. rewrite map_length. unfold single in Hs. assert (cw = w) by (destruct Hcase as [E|[E _]]; [exact E|lia]).
+      assert (Z.of_nat (Datatypes.length bits) =? w = true) as -> by lia. reflexivity. }
+  cbn [bind]. apply all_ok_intro. intros pw Hpw. specialize (Hall pw Hpw).
+  destruct (assoc (fst pw) (i_conns x)) as [cx|] eqn:Ea; [|congruence].
+  destruct (assoc_Forall2 _ _ _ (fst pw) cx Fc (fun c pc H => eq_sym (proj1 H)) Ea) as [t [Ht _]]. rewrite Ht. reflexivity.
+Qed.
 End Readback.
 
 (* ------------------------------------------------------------------------------------------ the export step, end to end *)
